@@ -397,7 +397,7 @@ def main(argv=None):
                 print("VIOLATION property=%s replay=%s" % (pid, fn))
                 violations.append(({"oid": w["oid"], "cex": w["values"]}, "fixed finding returned"))
 
-    if not a.no_evidence:
+    if not a.no_evidence and not a.only:
         write_evidence(pid, a.tier, seed, obs, results, violations, harness_errors, kf_lines, gates, time.time() - t0, mod)
 
     n = len(results)
